@@ -63,6 +63,14 @@ def _run(pid, tier, tags, level_assumptions, conc=False):
         ck.take(d2, prefix="conc_")
         traces += _validate_lin(ck, tp, only=("use-after-release",))
         os.unlink(tp)
+        # stop racing in-flight operations, through the real ServeConn (the session is stopped by its server): after Stop and after
+        # the in-flight handlers returned every entry has been released exactly once (engine of C11, release accounting only)
+        d3 = harness(["stoprace", "-reps", "1" if tier == "quick" else "4"], timeout=900, allow_crash=True)
+        if d3.get("crashed"):
+            raise vlib.Inconclusive("stoprace harness failed rc=%s:\n%s" % (d3.get("rc"), d3["_stdout"][-1500:]))
+        d3["violations"] = [v for v in d3.get("violations") or [] if v.get("tag") == "C11" and "release" in v.get("sig", "")]
+        d3["samples"] = []
+        ck.take(d3, prefix="stoprace_")
     ck.add_cov(traces_validated_against_impl=traces,
                rule="every transition of the TLC-computed LTS of FidTable is executed at least once on "
                     "p9p.SFileSys(scriptedFS) (edge-cover tours from the initial state) plus seeded random walks; "
